@@ -570,6 +570,58 @@ func ruleArrays(c *Ctx) {
 		}
 		walk(mf.pruneAry, nil)
 		_ = chain
+		// the driver: a patch decoded as an array is encoded again untouched — no element is
+		// merged with anything or replaced (RFC 7396: an array patch replaces the target wholesale)
+		if dm := mf.doMerge; dm != nil {
+			allInstrs(dm, func(i ssa.Instruction) {
+				al, ok := i.(*ssa.Alloc)
+				if !ok || !isPtrToNamed(al.Type(), "partialArray") {
+					return
+				}
+				key := "doMergePatch: a patch decoded as an array is not merged element-wise or edited"
+				bad := ""
+				isElemsOf := func(v ssa.Value) bool {
+					for d := 0; d < 5 && v != nil; d++ {
+						switch x := v.(type) {
+						case *ssa.IndexAddr:
+							v = x.X
+						case *ssa.UnOp:
+							v = x.X
+						case *ssa.FieldAddr:
+							return x.X == ssa.Value(al)
+						case *ssa.Slice:
+							v = x.X
+						default:
+							return false
+						}
+					}
+					return false
+				}
+				allInstrs(dm, func(j ssa.Instruction) {
+					switch x := j.(type) {
+					case *ssa.Store:
+						if _, isIA := x.Addr.(*ssa.IndexAddr); isIA && isElemsOf(x.Addr) {
+							bad = "an element of the array patch is replaced at " + b.posOf(j)
+						}
+					case *ssa.Call:
+						f := x.Call.StaticCallee()
+						if f == nil || (f != mf.merge && f != mf.mergeDocs) {
+							return
+						}
+						for _, a := range x.Call.Args {
+							if isElemsOf(a) {
+								bad = "an element of the array patch is handed to " + fname(f) + " at " + b.posOf(j) + ": arrays are merged element by element instead of replacing the target"
+							}
+						}
+					}
+				})
+				if bad != "" {
+					l.add("R-ARRAYS", b.Name, key, b.posOf(al), Violated, bad, true)
+				} else {
+					l.add("R-ARRAYS", b.Name, key, b.posOf(al), Discharged, "no store into its elements and none of them reaches merge/mergeDocs", true)
+				}
+			})
+		}
 		if found != "" {
 			l.add("R-ARRAYS", b.Name, key, b.rel(mf.pruneAry.Pos()), Violated, "arrays of the patch are edited: "+found+" (null members of objects inside an array of the patch would be dropped, contrary to RFC 7396)", true)
 		} else {
@@ -616,6 +668,61 @@ func rulePatchWins(c *Ctx) {
 			if v == ssa.Value(patchP) {
 				nPatchRet++
 				l.add("R-PATCHWINS", b.Name, key, b.posOf(r), Discharged, "returns the patch parameter itself", true)
+				// ... and only when the patch is not an object: the immediate reason for this return
+				// is a decode error of the patch, or the decoded member map being nil (the text null)
+				key2 := fmt.Sprintf("doMergePatch: verbatim return #%s of the patch is taken only for a patch that is not an object", b.retOrdinal(r))
+				why := ""
+				for _, e := range b.controlDeps(r.Block()) {
+					iff, ok := e.From.Instrs[len(e.From.Instrs)-1].(*ssa.If)
+					if !ok {
+						continue
+					}
+					var conds []ssa.Value
+					var collect func(v ssa.Value, d int)
+					collect = func(v ssa.Value, d int) {
+						if d > 4 || v == nil {
+							return
+						}
+						conds = append(conds, v)
+						switch x := v.(type) {
+						case *ssa.Phi:
+							for _, ed := range x.Edges {
+								collect(ed, d+1)
+							}
+							for _, p := range x.Block().Preds {
+								if pi, ok := p.Instrs[len(p.Instrs)-1].(*ssa.If); ok {
+									collect(pi.Cond, d+1)
+								}
+							}
+						case *ssa.UnOp:
+							collect(x.X, d+1)
+						}
+					}
+					collect(iff.Cond, 0)
+					for _, cv := range conds {
+						if x, _, ok := nilTestOfCond(cv); ok {
+							if _, fr, isF := fieldLoad(x); isF && fr.Field == "obj" {
+								why = "the decoded member map is nil (the patch is the text null)"
+							}
+							if isErrorType(x.Type()) {
+								why = "a decode of the patch failed"
+							}
+						}
+						if call, ok := cv.(*ssa.Call); ok {
+							if g := call.Call.StaticCallee(); g != nil && len(call.Call.Args) == 1 && isErrorType(call.Call.Args[0].Type()) {
+								why = fname(g) + " classified the decode error of the patch"
+							}
+							if g := call.Call.StaticCallee(); g != nil && g.Pkg == b.Codec && b.Codec != nil && g.Name() == "Valid" {
+								why = "the patch is a well-formed text that is neither object nor array"
+							}
+						}
+					}
+				}
+				if why == "" {
+					l.add("R-PATCHWINS", b.Name, key2, b.posOf(r), Violated, "the reason for returning the patch verbatim is neither a failed decode of the patch nor its member map being nil: an object patch (the empty object, say) would replace the document instead of being merged into it", true)
+				} else {
+					l.add("R-PATCHWINS", b.Name, key2, b.posOf(r), Discharged, why, true)
+				}
 				continue
 			}
 			if v == ssa.Value(docP) {
@@ -806,6 +913,71 @@ func ruleCmpShape(c *Ctx) {
 					l.add("R-CMPSHAPE", b.Name, key, b.posOf(call), Discharged, "every accepting return reachable from the call is dominated by its err == nil edge", true)
 				}
 			})
+		}
+		// the array form encodes a slice that is never nil: two empty arrays give [] and not null
+		{
+			key := "createArrayMergePatch: the encoded result is a non-nil slice (two empty arrays give [], not null)"
+			bad := "no encoder call on a slice found"
+			allInstrs(ca, func(i ssa.Instruction) {
+				call, ok := i.(*ssa.Call)
+				if !ok {
+					return
+				}
+				f := call.Call.StaticCallee()
+				if f == nil || !strings.HasPrefix(f.Name(), "Marshal") || len(call.Call.Args) == 0 {
+					return
+				}
+				v := call.Call.Args[0]
+				if mi, ok := v.(*ssa.MakeInterface); ok {
+					v = mi.X
+				}
+				if _, isSl := v.Type().Underlying().(*types.Slice); !isSl {
+					return
+				}
+				bad = ""
+				seen := map[ssa.Value]bool{}
+				var walk func(x ssa.Value)
+				walk = func(x ssa.Value) {
+					if x == nil || seen[x] {
+						return
+					}
+					seen[x] = true
+					switch y := x.(type) {
+					case *ssa.Const:
+						if y.Value == nil {
+							bad = "the slice handed to the encoder at " + b.posOf(call) + " can be nil (declared without a value and never appended to): for two empty arrays the patch is the text null, which replaces the array instead of leaving it"
+						}
+					case *ssa.Phi:
+						for _, e := range y.Edges {
+							walk(e)
+						}
+					case *ssa.Call:
+						if bi, ok := y.Call.Value.(*ssa.Builtin); ok && bi.Name() == "append" {
+							// append of at least one element is non-nil; the other operand decides the empty case
+							walk(y.Call.Args[0])
+						}
+					case *ssa.UnOp:
+						if al, ok := y.X.(*ssa.Alloc); ok {
+							n := 0
+							for _, r := range *al.Referrers() {
+								if st, ok := r.(*ssa.Store); ok && st.Addr == ssa.Value(al) {
+									n++
+									walk(st.Val)
+								}
+							}
+							if n == 0 {
+								bad = "the slice variable is never assigned"
+							}
+						}
+					}
+				}
+				walk(v)
+			})
+			if bad != "" {
+				l.add("R-CMPSHAPE", b.Name, key, b.rel(ca.Pos()), Violated, bad, true)
+			} else {
+				l.add("R-CMPSHAPE", b.Name, key, b.rel(ca.Pos()), Discharged, "every definition that reaches the encoder is a literal, a make, or an append onto one", true)
+			}
 		}
 		// the object diff is encoded as getDiff produced it: its result goes to the encoder and nowhere else
 		if gd := b.roleFn("getDiff"); gd != nil {
